@@ -3,7 +3,7 @@
 # runs the check against it (ACRYO_REPO), reverts; then the caller should re-run the clean check to restore evidence.
 set -u
 P="$1"; PID="$2"; TIER="${3:-quick}"
-W=/tmp/wt/eval
+W=/tmp/acryo_try_patch
 [ -d "$W" ] || git -C /repo worktree add -q --detach "$W" HEAD
 cd "$W" || exit 2
 git checkout -q --detach "$(git -C /repo rev-parse HEAD)" 2>/dev/null
